@@ -469,6 +469,16 @@ std::vector<Scenario> scenarios(bool thorough) {
   v.push_back({"run: child killed by SIGKILL, check=true", API_RUN, false, 0, {{ST_W1, 4}, {ST_K, SIGKILL}}, true, 0, 2, 3, false, SIGKILL});
   v.push_back({"run: child hangs, timeout 2.5 s", API_RUN, true, 3, {{ST_W1, 9}, {ST_Z, 0}}, false, 2500000, 2, 3, false, -1});
   v.push_back({"run: child finishes well inside a timeout", API_RUN, true, 3, {{ST_RALL, 0}, {ST_W1, 9}, {ST_X, 0}}, false, 30000000, 2, 3, true, 0});
+  // chunked echo: the child reads a little, echoes it, reads a little more (payload far beyond both pipes' capacity)
+  auto chunked = [](size_t payload, size_t chunk, int code) {
+    std::vector<Step> sc;
+    for (size_t done = 0; done < payload; done += chunk) { sc.push_back({ST_R, (int64_t)chunk}); sc.push_back({ST_W1, (int64_t)chunk}); }
+    sc.push_back({ST_RALL, 0});
+    sc.push_back({ST_X, code});
+    return sc;
+  };
+  v.push_back({"run: chunked echo 4096 x 60 (payload 245760)", API_RUN, true, 245760, chunked(245760, 4096, 0), false, 0, 1, 2, true, 0});
+  v.push_back({"run: chunked echo 1 x 12", API_RUN, true, 12, chunked(12, 1, 4), false, 0, 2, 3, true, W(4)});
   // ---- Subprocess::communicate ----
   for (uint64_t dl : {(uint64_t)0, (uint64_t)5000000}) {
     const char* d = dl ? "deadline 5 s" : "no deadline";
@@ -477,6 +487,8 @@ std::vector<Scenario> scenarios(bool thorough) {
       if (big && pl == 1048576 && !thorough && dl) continue;
       v.push_back({vf::fmt("comm: cat-like echo of %zu bytes, %s", pl, d), API_COMM, true, pl, pl == 0 ? std::vector<Step>{{ST_RALL, 0}, {ST_W1, 10}, {ST_X, 0}} : big ? std::vector<Step>{{ST_R, 65536}, {ST_W1, 65536}, {ST_R, 65536}, {ST_W1, 65536}, {ST_RALL, 0}, {ST_W1, 70000}, {ST_X, 0}} : std::vector<Step>{{ST_RALL, 0}, {ST_W1, (int64_t)pl}, {ST_X, 0}}, false, dl, big ? 1 : 2, big ? 2 : 3, true, 0});
     }
+    v.push_back({vf::fmt("comm: chunked echo 4096 x 60 (payload 245760), %s", d), API_COMM, true, 245760, chunked(245760, 4096, 0), false, dl, 1, 2, true, 0});
+    v.push_back({vf::fmt("comm: chunked echo 1000 x 9 then 70000 more output, %s", d), API_COMM, true, 9000, [&] { auto sc = chunked(9000, 1000, 0); sc.insert(sc.end() - 1, Step{ST_W1, 70000}); return sc; }(), false, dl, 1, 2, true, 0});
     v.push_back({vf::fmt("comm: read all, write 3000, write 3000, exit, %s", d), API_COMM, true, 10, {{ST_RALL, 0}, {ST_W1, 3000}, {ST_W1, 3000}, {ST_X, 0}}, false, dl, 2, 3, true, 0});
     v.push_back({vf::fmt("comm: write 100000 then exit 2, %s", d), API_COMM, true, 0, {{ST_W1, 100000}, {ST_X, 2}}, false, dl, 1, 2, false, W(2)});
     v.push_back({vf::fmt("comm: child exits at once, %s", d), API_COMM, true, 5, {{ST_X, 0}}, false, dl, 3, 4, false, 0});
